@@ -6,11 +6,13 @@ Correspondence (four parts, each in lanes.run_part; see TRUSTED for how strong e
 harness/c01_lanes.c shared with C01-C05; (clane) harness/c04_clane.c records every atomic operation on ONE concurrent queue object
 under schedule perturbation; every successful dq_state write is checked against the generated body of its source site inside Coq
 (CLaneJudge.tr_ok, existential over the locals the trace does not show), the successful writes are chained by value (old -> new)
-into the exact global order of the word, and necessary conditions of the proved invariant (CLaneJudge.word_ok / owner_ok; the
-no-false-alarm direction is Properties_C04.C04_trace_judges_sound) are evaluated on every state of the chain; (overtake) the fixed
+into the exact global order of the word, necessary conditions of the proved invariant (CLaneJudge.word_ok / owner_ok; the
+no-false-alarm direction is Properties_C04.C04_trace_judges_sound) are evaluated on every state of the chain, and the width accounting
+itself (CLaneJudge.acct_ok) is evaluated on every state with the ghost state reconstructed from the run (ghost_check); (overtake) the fixed
 schedule of harness/c04_overtake.c; (words) lib/lanewords.py.
 replay(): every failure / mismatch carries the parameters of the run that produced it and is re-executed and re-judged."""
 import os
+import collections
 import re
 import common
 import conc
@@ -23,6 +25,7 @@ COQ_DEPS = ["Proofs/Lane_iface.vo", "Proofs/CLane_main.vo", "Proofs/CLane_order.
 GEN_MODULES = ["Gen_dqstate", "Gen_lanesites", "Gen_once"]
 LEVEL = "proof"
 COQ_TIMEOUT = 2400
+JUDGE_EXTRA = []
 TRUSTED = [
     "Model/CLane.v is hand-written control flow (47 program points of dispatch_sync / dispatch_barrier_sync fast and slow paths, "
     "dispatch_[barrier_]async, the redirecting concurrent drain, _dispatch_lane_barrier_complete, _dispatch_lane_drain_non_barriers, "
@@ -35,8 +38,15 @@ TRUSTED = [
     "flags and the owned width, whose candidates are derived from the old/new width fields; the unlock / relinquish codes accept any "
     "pure width change; no theorem is stated about tr_ok; the write is not placed at a program point of CLane), and every state of "
     "the value chain passes CLaneJudge.word_ok / owner_ok, which are NECESSARY conditions of the proved invariant "
-    "(C04_trace_judges_sound is the no-false-alarm direction only; word_ok bounds the width field from below only; no ghost state "
-    "-- readers in flight -- is reconstructed from the run); "
+    "(C04_trace_judges_sound is the no-false-alarm direction only; word_ok bounds the width field from below only); and every "
+    "state of the chain passes CLaneJudge.acct_ok -- the equation of C04_width_accounting, upper and lower bound on the width "
+    "field, IN_BARRIER exactly with a barrier owner -- with a ghost state (readers' intervals, intervals owned by the lock holder, "
+    "barrier owner) RECONSTRUCTED from the run along the exact order of the writes: from which source site wrote, which thread "
+    "wrote, the owner and PENDING_BARRIER bits of the words and the lock owner's pops (stores of dq_items_head in "
+    "_dispatch_queue_pop_head, in its program order), never from the width field or IN_BARRIER; the reconstruction "
+    "(ghost_check in lib/props/c04.py) follows the ghost updates of Model/CLane.v by hand and is itself unproved; the two "
+    "dispatch_apply sites take their number of intervals from the word; C04_accounting_judge_sound is again the no-false-alarm "
+    "direction (a reachable state passes with its own ghost state); "
     "(c) the API-level oracles (overlap counters, run counters, stuck watchdog) on the same runs. "
     "The control flow between sites (which program point follows which, e.g. the branches of the drainer's head test) is tied by "
     "nothing beyond (a); site codes 19-22 of the trace check (invoke_finish, dispatch_apply's two sites, override-only wakeups) "
@@ -209,17 +219,159 @@ def chain(writes, start):
     return [writes[i] for i in order], None
 
 
+OWN = (1 << 30) - 1
+
+def ghost_check(ordered, per_thr, W, off_head):
+    """ordered: the writes of dq_state in their exact order (dicts of analyse); per_thr: thr -> events of this round in program
+    order. Reconstructs U (intervals held by readers / redirected items / granted waiters), dw (intervals owned by the lock
+    owner), bm (a barrier owner exists) from WHICH site wrote, WHO wrote, the owner / PENDING bits and the pops of the lock
+    owner -- never from the width field or IN_BARRIER -- and compares both with every word of the chain."""
+    probs, cases = [], []
+    U, dw, bm, owner = 0, 0, False, 0
+    ptr = {t: 0 for t in per_thr}
+    idx_of = {}
+    for t, evs in per_thr.items():
+        for i, e in enumerate(evs):
+            idx_of[id(e)] = i
+    skip_next_store = {t: False for t in per_thr}
+    stats = collections.Counter()
+
+    def is_pop_store(e):
+        if e.kind != 2 or e.off != off_head:
+            return False
+        fid, ln = divmod(e.line, 100000)
+        return func_of(fid, ln) == "_dispatch_queue_pop_head"
+
+    def is_pop_cas(e):
+        fid, ln = divmod(e.line, 100000)
+        return e.kind == 4 and e.off != off_head and func_of(fid, ln) == "_dispatch_queue_pop_head"
+
+    def advance(t, upto, selfv):
+        nonlocal U, dw
+        evs = per_thr[t]
+        while ptr[t] < upto:
+            e = evs[ptr[t]]
+            ptr[t] += 1
+            if e.kind >= 100:
+                continue
+            if is_pop_cas(e):
+                if not (e.ok & 1):
+                    skip_next_store[t] = True      # lost the race with an enqueuer: the head is stored a second time
+                continue
+            if is_pop_store(e):
+                if skip_next_store[t]:
+                    skip_next_store[t] = False
+                    continue
+                stats["pops"] += 1
+                if owner != selfv:
+                    if len(probs) < 3:
+                        probs.append({"problems": ["a thread that is not the lock owner took an item off the list (thread lock value %d, owner field %d)" % (selfv, owner)], "width": W})
+                elif not bm:
+                    dw -= 1
+                    U += 1
+                    stats["pops_transfer"] += 1
+
+    pos = 0
+    for w in ordered:
+        pos += 1
+        t, e = w["thr"], w["e"]
+        selfv = w["tid"] & OWN
+        advance(t, idx_of[id(e)], selfv)
+        ptr[t] = idx_of[id(e)] + 1
+        codes = SITES.get((w["fn"], w["kind"]))
+        old, new = w["old"], w["new"]
+        oo, on = old & OWN, new & OWN
+        pb_new = (new >> 40) & 1
+        code = codes[0] if codes else 0
+        stats["code%d" % code] += 1
+        note = None
+        if code == 1:
+            U += 1
+        elif code == 2:
+            if owner == selfv:
+                dw += 1
+            else:
+                U += 1
+        elif code == 3:
+            dw += 1
+            if owner != selfv:
+                note = "width reserved for a waiter by a thread that does not own the lock"
+        elif code == 4:
+            U -= 1
+            if oo == 0 and on == selfv:
+                if U != 0:
+                    note = "a completing reader took the barrier lock while %d intervals were still held" % U
+                dw, bm = W, True
+        elif code == 5:
+            if U != 0 or dw != 0:
+                note = "barrier sync fast path acquired with %d intervals held" % (U + dw)
+            dw, bm = W, True
+        elif code == 6:
+            dw, bm = 0, False
+        elif code == 8:
+            pass                                  # lock handed to the barrier waiter: still a barrier owner with the whole width
+        elif code == 9:
+            bm = False
+        elif code == 10:
+            if on == selfv:
+                if U != 0:
+                    note = "drain_non_barriers took the barrier lock again while %d intervals were held" % U
+                dw, bm = W, True
+            else:
+                dw, bm = 0, False
+        elif code == 13:
+            if oo == 0 and on == selfv:
+                if U != 0 or dw != 0:
+                    note = "push_waiter took the lock with %d intervals held" % (U + dw)
+                dw, bm = W, True
+        elif code == 14:
+            if oo == 0 and on == selfv:
+                bm = (U == 0)
+                dw = W if bm else W - U
+        elif code == 15:
+            if U == 0:
+                dw, bm = W, True
+            else:
+                dw = 0
+        elif code == 16:
+            dw, bm = 0, False
+        elif code == 18:
+            bm = False
+        elif code == 19:
+            dw, bm = 0, False
+        elif code == 20:
+            U += ((new - old) & ((1 << 64) - 1)) >> 41
+        elif code == 21:
+            U -= ((old - new) & ((1 << 64) - 1)) >> 41
+        owner = on
+        cases.append((new, U + dw, int(bm), U, dw, pos, w["line"], w["fn"]))
+        bad = []
+        if bm and (dw != W or on == 0):
+            bad.append("reconstruction: barrier owner with %d intervals owned, owner field %d" % (dw, on))
+        if on == 0 and (dw != 0 or bm or U < 0):
+            bad.append("reconstruction: no lock owner but %d intervals owned / readers %d" % (dw, U))
+        if note:
+            bad.append(note)
+        if bad and len(probs) < 3:
+            probs.append({"position": pos, "word": new, "old": old, "site": w["line"], "function": w["fn"], "width": W, "problems": bad})
+    return cases, probs, stats
+
+
+
 def analyse(text, label, stats, expect_rounds=None):
-    """returns (failures, mismatches, trcases, wordcases, ownercases) for one harness run"""
+    """returns (failures, mismatches, trcases, wordcases, ownercases, accountingcases) for one harness run"""
     other, per = conc.parse_dump(text)
     fails, mism = [], []
     off_state = None
+    off_head = None
+    acctc = []
     end = None
     rounds = {}
     for l in other:
         f = l.split()
         if f[0] == "O":
             off_state = int(f[2])
+            off_head = int(f[4]) if len(f) > 4 else None
         elif f[0] == "END" and len(f) >= 3:
             end = (int(f[1]), int(f[2]))
         elif f[0] == "R" and len(f) >= 14:
@@ -230,7 +382,7 @@ def analyse(text, label, stats, expect_rounds=None):
     nev = sum(len(v) for v in per.values())
     if off_state is None:
         mism.append({"what": "recording run printed no layout line (empty or truncated output)", "detail": {"label": label}})
-        return fails, mism, trc, wordc, ownc
+        return fails, mism, trc, wordc, ownc, acctc
     if end is None:
         mism.append({"what": "recording run output has no END line (truncated output)", "detail": {"label": label, "rounds_seen": len(rounds)}})
     elif end[0] != len(rounds) or end[1] != nev:
@@ -310,6 +462,18 @@ def analyse(text, label, stats, expect_rounds=None):
                                                                          "function": w["fn"], "old": w["old"]}})
         if not err:
             wordc.append({"W": W, "words": [R["st0"]] + [w["new"] for w in ordered], "info": {"label": label, "round": rd}})
+            # ---- the ghost state reconstructed along the exact order of the writes, and the accounting on every word
+            try:
+                cases, gprobs, gst = ghost_check(ordered, per_thr, W, off_head)
+            except Exception:
+                import traceback
+                cases, gprobs, gst = [], [{"problems": ["the reconstruction crashed: " + traceback.format_exc()[-600:]]}], {}
+            stats["pops_seen"] = stats.get("pops_seen", 0) + gst.get("pops", 0)
+            stats["intervals_handed_from_drainer_to_items"] = stats.get("intervals_handed_from_drainer_to_items", 0) + gst.get("pops_transfer", 0)
+            for gp in gprobs:
+                mism.append({"what": "reconstruction of the ghost state from the recorded run: " + "; ".join(gp.get("problems", []))[:300],
+                             "detail": dict(gp, label=label, round=rd)})
+            acctc.append({"W": W, "cases": cases, "info": {"label": label, "round": rd}})
         # ---- per-thread: what a thread does to the word right after one of its items
         write_ids = {id(w["e"]): w for w in writes}
         for thr, evs in per_thr.items():
@@ -334,7 +498,7 @@ def analyse(text, label, stats, expect_rounds=None):
                         ownc.append({"w": w["old"], "self": w["tid"] & 0x3fffffff,
                                      "info": {"label": label, "round": rd, "site": w["line"], "function": w["fn"], "old": w["old"],
                                               "after_barrier_item": ticket}})
-    return fails, mism, trc, wordc, ownc
+    return fails, mism, trc, wordc, ownc, acctc
 
 
 def _coq(name, imports, body):
@@ -349,11 +513,11 @@ def _coq(name, imports, body):
     return vals, ""
 
 
-def coq_judge(ctx, trc, wordc, ownc):
+def coq_judge(ctx, trc, wordc, ownc, acctc=()):
     """evaluates the judges inside Coq; returns (mismatches, counts of what was actually judged)"""
     mism = []
-    judged = {"transitions": 0, "words": 0, "owner_words": 0}
-    imports = ["Word", "Gen_consts", "Gen_dqstate", "DqFields", "CLane", "CLaneJudge"]
+    judged = {"transitions": 0, "words": 0, "owner_words": 0, "accounting_words": 0}
+    imports = ["Word", "Gen_consts", "Gen_dqstate", "DqFields", "CLane", "CLaneJudge"] + JUDGE_EXTRA
 
     def zl(xs):
         return "[" + "; ".join(str(x) for x in xs) + "]"
@@ -425,6 +589,35 @@ def coq_judge(ctx, trc, wordc, ownc):
                     mism.append({"what": "a thread wrote dq_state as the barrier owner (barrier completion / right after its barrier item) "
                                  "while the word did not name it as the owner with IN_BARRIER set (CLaneJudge.owner_ok)",
                                  "detail": ownc[k]["info"]})
+    # (iii) the width accounting itself (CLaneJudge.acct_ok = the equation of C04_width_accounting) on the reconstructed ghost state
+    flat = [(n, k) for n, c in enumerate(acctc) for k in range(len(c["cases"]))]
+    for c0 in range(0, len(flat), 5000):
+        part = flat[c0:c0 + 5000]
+        body = "Definition cases : list (list Z) := [\n" + ";\n".join(
+            zl([acctc[n]["W"], acctc[n]["cases"][k][0], acctc[n]["cases"][k][1], acctc[n]["cases"][k][2]]) for n, k in part) + "].\n"
+        body += "Eval vm_compute in failing acct_case cases 0.\n"
+        vals, prob = _coq("c04_acct_%d" % c0, imports, body)
+        if vals is None:
+            mism.append({"what": "the accounting judge (CLaneJudge.acct_ok) could not be evaluated on %d words: they are NOT checked" % len(part),
+                         "detail": {"coq": prob, "run": acctc[part[0][0]]["info"].get("run")}})
+            continue
+        judged["accounting_words"] += len(part)
+        first = {}
+        for i in driver.ints(vals[0]):
+            if 0 <= i < len(part):
+                n, k = part[i]
+                first.setdefault(n, []).append(k)
+        for n, ks in first.items():
+            c = acctc[n]
+            word, held, bm, U, dw, pos, site, fn = c["cases"][ks[0]]
+            d = dict(c["info"])
+            d.update({"position": pos, "word": word, "width": c["W"], "width_field": wq(word), "pending_barrier": (word >> 40) & 1,
+                      "in_barrier": (word >> 54) & 1, "reconstructed_readers": U, "reconstructed_owned_by_lock_holder": dw,
+                      "reconstructed_barrier_owner": bm, "expected_width_field": 4096 - c["W"] + held + (c["W"] - 1) * ((word >> 40) & 1),
+                      "site": site, "function": fn, "violations_in_round": len(ks)})
+            mism.append({"what": "the width accounting does not hold on the reconstructed state (CLaneJudge.acct_ok, the equation of "
+                                 "C04_width_accounting): the width field is not 4096 - W + held intervals + (W-1)*pending, or IN_BARRIER "
+                                 "does not coincide with the existence of a barrier owner; first offending word of the round", "detail": d})
     return mism, judged
 
 
@@ -440,7 +633,7 @@ def clane_plan(ctx):
 def clane_runs(ctx, plan=None):
     """the trace check on the given recording runs (default: the plan of the tier). Every failure / mismatch carries the
     parameters of its run ("run") so that replay re-executes exactly that run. Nothing collected is ever dropped."""
-    fails, mism, trc, wordc, ownc, stats = [], [], [], [], [], {}
+    fails, mism, trc, wordc, ownc, acctc, stats = [], [], [], [], [], [], {}
     for scn, seed, rounds, pm, scale in (plan if plan is not None else clane_plan(ctx)):
         runp = {"scenario": scn, "seed": seed, "rounds": rounds, "permille": pm, "scale": scale}
         label = "%s-seed%d-pm%d" % (scn, seed, pm)
@@ -452,7 +645,7 @@ def clane_runs(ctx, plan=None):
             mism.append({"what": "recording run failed: nothing of it is checked", "detail": {"label": label, "problem": prob, "run": runp}})
             continue
         try:
-            f, m, t, w, o = analyse(text, label, stats, expect_rounds=rounds)
+            f, m, t, w, o, ac = analyse(text, label, stats, expect_rounds=rounds)
         except Exception:
             import traceback
             mism.append({"what": "the output of a recording run could not be analysed (malformed or truncated)",
@@ -466,16 +659,17 @@ def clane_runs(ctx, plan=None):
             x.setdefault("detail", {})
             if isinstance(x["detail"], dict):
                 x["detail"]["run"] = runp
-        for x in t + w + o:
+        for x in t + w + o + ac:
             x["info"]["run"] = runp
+        acctc += ac
         fails += f
         mism += m
         trc += t
         wordc += w
         ownc += o
-    judged = {"transitions": 0, "words": 0, "owner_words": 0}
+    judged = {"transitions": 0, "words": 0, "owner_words": 0, "accounting_words": 0}
     try:
-        m, judged = coq_judge(ctx, trc, wordc, ownc)
+        m, judged = coq_judge(ctx, trc, wordc, ownc, acctc)
         mism += m
     except Exception:        # keep everything collected so far
         import traceback
@@ -571,12 +765,17 @@ def clane_part(ctx):
         "about tr_ok; site codes 19-22 (invoke_finish, the two dispatch_apply sites, override-only wakeups) have no program point "
         "in CLane; (2) the writes are chained by value into the exact order of the word and CLaneJudge.word_ok is evaluated on %d "
         "states: a NECESSARY condition only (Properties_C04.C04_trace_judges_sound: every reachable model state passes; not the "
-        "converse): the width field is at least its base, IN_BARRIER comes with the exact full width and an owner; it is a lower "
-        "bound on the width field, no ghost state (readers in flight) is reconstructed from the run; (3) owner_ok on %d words seen by "
-        "barrier owners; (4) the control flow between the sites (which program point follows which) is tied only by the per-function "
+        "converse): the width field is at least its base, IN_BARRIER comes with the exact full width and an owner; (2b) the ghost "
+        "state (intervals held by readers / redirected items / granted waiters, intervals owned by the lock holder, existence of a "
+        "barrier owner) is reconstructed along that order from which site wrote, who wrote, the owner / PENDING_BARRIER bits and the "
+        "lock owner's pops -- never from the width field or IN_BARRIER -- and CLaneJudge.acct_ok (width field = 4096 - W + held + "
+        "(W-1)*pending, an upper AND lower bound; IN_BARRIER exactly with a barrier owner) is evaluated inside Coq on %d words; the "
+        "first offending word of a round is reported; the reconstruction is hand-written Python following CLane's ghost updates, "
+        "the dispatch_apply sites take their interval count from the word; (3) owner_ok on %d words seen by barrier owners; (4) the control flow between the sites (which program point follows which) is tied only by the per-function "
         "site lists (C04_model_sites_match, prefixes for 5 of 13 functions) and by 'after a reader item the thread's next write is "
         "_dispatch_lane_non_barrier_complete'; distinct = distinct (site, width, width field, IN_BARRIER, PENDING_BARRIER) of "
-        "judged transitions") % (len(trc), judged.get("transitions", 0), judged.get("words", 0), judged.get("owner_words", 0))
+        "judged transitions") % (len(trc), judged.get("transitions", 0), judged.get("words", 0), judged.get("accounting_words", 0),
+                                 judged.get("owner_words", 0))
     return {"evaluations": judged.get("transitions", 0), "distinct_nontrivial": len(shapes), "rule": rule,
             "traces_validated_against_impl": judged.get("transitions", 0),
             "samples": [t["info"] for t in trc[:3]] + [t["info"] for t in trc if t["codes"][0] in (10, 15, 8)][:3],
